@@ -564,6 +564,49 @@ func GenCapScope() []Case {
 	return out
 }
 
+// ---- F-decoscope: what a decorated block sees of its decorator, and what a decorator leaves behind
+
+// GenDecoScope: (a) a decorator whose definition nests two patterns defining the same group name, with `next`
+// in the inner or after it: the decorated block sees the innermost definition in scope at the `next`;
+// (b) decorator applications and `next` as the only flag-using statement of an else block, with an
+// `otherwise` of the enclosing block behind them.
+func GenDecoScope() []Case {
+	var out []Case
+	outer := `^(?P<w>\S+) (?P<n>\S+)$`
+	inner := `^k(?P<n>\w+)`
+	w, n := Cap{"w", TString}, Cap{"n", TString}
+	decls := []Decl{{Kind: "counter", Name: "seen", Keys: []string{"k"}, T: TInt}, {Kind: "counter", Name: "t", T: TInt}}
+	seen := Assign{Target: Ref{Name: "seen", Idx: []Expr{n}, T: TInt}, Op: "++"}
+	tick := Assign{Target: Ref{Name: "t", T: TInt}, Op: "++"}
+	lines := []string{"k7 zz", "x y", "kab cd", "plain"}
+	bodies := [][]Stmt{
+		{Cond{C: Pat{outer}, Then: []Stmt{Cond{C: Match{false, w, inner}, Then: []Stmt{Next{}}}}}},
+		{Cond{C: Pat{outer}, Then: []Stmt{Cond{C: Match{false, w, inner}, Then: []Stmt{tick}}, Next{}}}},
+	}
+	for _, b := range bodies {
+		out = append(out, Case{Family: "decorator-scope", P: &Program{Decls: decls, Defs: []DecoDef{{Name: "d", Body: b}}, Stmts: []Stmt{Deco{Name: "d", Body: []Stmt{seen, tick}}}}, Lines: lines})
+	}
+	// else blocks whose only user of the matched flag is a decorator application / a `next`
+	d2 := []Decl{{Kind: "counter", Name: "ca", T: TInt}, {Kind: "counter", Name: "cb", T: TInt}, {Kind: "counter", Name: "cd", T: TInt}, {Kind: "counter", Name: "cf", T: TInt}}
+	inc := func(nm string) Stmt { return Assign{Target: Ref{Name: nm, T: TInt}, Op: "++"} }
+	l2 := []string{"b", "x", "c", "bc", "a", "ac"}
+	defC := DecoDef{Name: "onc", Body: []Stmt{Cond{C: Pat{"c"}, Then: []Stmt{Next{}}}}}
+	out = append(out, Case{Family: "decorator-scope", P: &Program{Decls: d2, Defs: []DecoDef{defC}, Stmts: []Stmt{
+		Cond{C: Pat{"b"}, Then: []Stmt{inc("cb")}},
+		Cond{C: Pat{"a"}, Then: []Stmt{inc("ca")}, Else: []Stmt{Deco{Name: "onc", Body: []Stmt{inc("cd")}}}},
+		Otherwise{Body: []Stmt{inc("cf")}},
+	}}, Lines: l2})
+	out = append(out, Case{Family: "decorator-scope", P: &Program{Decls: d2, Defs: []DecoDef{defC}, Stmts: []Stmt{
+		Cond{C: Pat{"a"}, Then: []Stmt{inc("ca")}, Else: []Stmt{inc("cb"), Deco{Name: "onc", Body: []Stmt{inc("cd")}}}},
+		Otherwise{Body: []Stmt{inc("cf")}},
+	}}, Lines: l2})
+	defElse := DecoDef{Name: "nota", Body: []Stmt{Cond{C: Pat{"a"}, Then: []Stmt{inc("ca")}, Else: []Stmt{Next{}}}, Otherwise{Body: []Stmt{inc("cf")}}}}
+	out = append(out, Case{Family: "decorator-scope", P: &Program{Decls: d2, Defs: []DecoDef{defElse}, Stmts: []Stmt{
+		Deco{Name: "nota", Body: []Stmt{Cond{C: Pat{"c"}, Then: []Stmt{inc("cd")}}, inc("cb")}},
+	}}, Lines: l2})
+	return out
+}
+
 // All returns every family.
 func All(thorough bool) []Case {
 	var out []Case
@@ -575,6 +618,7 @@ func All(thorough bool) []Case {
 	out = append(out, GenDecl()...)
 	out = append(out, GenErr()...)
 	out = append(out, GenCapScope()...)
+	out = append(out, GenDecoScope()...)
 	return out
 }
 
